@@ -27,5 +27,7 @@ class Prop(RefProp):
                 gen_pipes.recursive_call(rng, case)
             elif r < 0.11:
                 gen_pipes.ctx_config_call(rng, case)
+            elif r < 0.16:
+                gen_pipes.falsy_item_call(rng, case)
             cases.append(case)
         return cases
